@@ -56,16 +56,67 @@ type c15Res struct {
 	Problems []string `json:"problems,omitempty"`
 }
 
+// position-accuracy of one token, on the implementation alone: the reported line/column must be the
+// coordinates of the offset at which the token's text stands in the source
+func c15TokenAt(rs []rune, lineStart []int, tok int, lit string, line, col int) string {
+	if line < 1 || line > len(lineStart) {
+		return fmt.Sprintf("line %d is not a line of the input (%d lines)", line, len(lineStart))
+	}
+	end := len(rs)
+	if line < len(lineStart) {
+		end = lineStart[line] - 1
+	}
+	idx := lineStart[line-1] + col - 1
+	if col < 1 || idx > end {
+		return fmt.Sprintf("column %d is beyond one past the end of line %d (length %d)", col, line, end-lineStart[line-1])
+	}
+	switch {
+	case tok == parser.EOF:
+		if idx != len(rs) {
+			return fmt.Sprintf("EOF reported at %d:%d, which is not the end of the input", line, col)
+		}
+	case tok == parser.STRING:
+		if idx >= len(rs) || (rs[idx] != '"' && rs[idx] != '\'' && rs[idx] != '`') {
+			return fmt.Sprintf("no quote at %d:%d where a string token is reported", line, col)
+		}
+	case tok == parser.EQOPCHAN || tok == parser.VARARG || tok == 0:
+	case lit != "":
+		lr := []rune(lit)
+		if idx+len(lr) > len(rs) || !strings.EqualFold(string(rs[idx:idx+len(lr)]), lit) {
+			return fmt.Sprintf("the text at %d:%d is not the token %q reported there", line, col, lit)
+		}
+	}
+	return ""
+}
+
 func c15RealTokens(src string) (string, string) {
+	t, stop, _ := c15RealTokensP(src)
+	return t, stop
+}
+
+func c15RealTokensP(src string) (string, string, []string) {
 	s := new(parser.Scanner)
 	s.Init(src)
+	rs := []rune(src)
+	lineStart := []int{0}
+	for i, r := range rs {
+		if r == '\n' {
+			lineStart = append(lineStart, i+1)
+		}
+	}
+	var problems []string
 	var toks []string
 	limit := utf8.RuneCountInString(src) + 3
 	for n := 0; ; n++ {
 		if n > limit {
-			return "(" + strings.Join(toks, " ") + ")", "no-progress"
+			return "(" + strings.Join(toks, " ") + ")", "no-progress", problems
 		}
 		tok, lit, pos, err := s.Scan()
+		if err == nil && len(problems) < 3 {
+			if p := c15TokenAt(rs, lineStart, tok, lit, pos.Line, pos.Column); p != "" {
+				problems = append(problems, "token position: "+p)
+			}
+		}
 		kind := ""
 		switch {
 		case tok == parser.EOF:
@@ -84,7 +135,7 @@ func c15RealTokens(src string) (string, string) {
 			break
 		}
 	}
-	return "(" + strings.Join(toks, " ") + ")", ""
+	return "(" + strings.Join(toks, " ") + ")", "", problems
 }
 
 func c15StmtDumps(st anko.Stmt) []string {
@@ -157,7 +208,11 @@ func c15One(i int, c c15Case) c15Res {
 		return r
 	}
 	if c.Kind != "deep" {
-		r.Tokens, r.ScanStop = c15RealTokens(src)
+		var tp []string
+		r.Tokens, r.ScanStop, tp = c15RealTokensP(src)
+		if utf8.ValidString(src) {
+			r.Problems = append(r.Problems, tp...)
+		}
 	}
 	func() {
 		defer func() {
@@ -356,6 +411,9 @@ func c15Main(seed uint64, n int, outDir, repo string) error {
 	// pairs of valid programs for the concatenation law
 	for i := 0; i+1 < len(valid) && i < n/2; i++ {
 		a, b := valid[rnd.Intn(len(valid))], valid[rnd.Intn(len(valid))]
+		if rnd.Chance(1, 6) { // a first text without statements: blanks, newlines, comments
+			a = []string{"", "\n", "\n\n\n", "  ", "\t\n ", "# c", "// c\n", "/* c\n d */", " \n# x\n"}[rnd.Intn(9)]
+		}
 		if rnd.Chance(1, 4) {
 			a += "\n"
 		}
